@@ -22,79 +22,9 @@ const (
 
 var cookieNames = []string{"absent", "garbage", "other-key", "code-key", "truncated", "genuine"}
 
-type idpAnswer struct {
-	name     string
-	confirms bool
-}
-
-var introspectClasses = []idpAnswer{
-	{"active-true", true}, {"active-true-rich", true},
-	{"active-false", false}, {"400-revoked", false}, {"400-other", false}, {"401", false}, {"429", false}, {"500", false},
-	{"malformed-json", false}, {"dropped", false}, {"200-empty-object", false},
-}
-
-var refreshClasses = []idpAnswer{
-	{"200-new-token", true}, {"200-new-token-rotating", true},
-	{"400-revoked", false}, {"400-other", false}, {"429", false}, {"500", false}, {"malformed-json", false}, {"dropped", false},
-	{"200-without-access-token", false}, {"200-empty-access-token", false}, {"401", false},
-}
-
-func introspectAnswer(cls int) sut.Answer {
-	switch introspectClasses[cls].name {
-	case "active-true":
-		return sut.IntrospectOK(true)
-	case "active-true-rich":
-		return sut.Answer{Status: 200, Body: `{"active":true,"scope":"openid email","username":"someone","exp":9999999999,"token_type":"Bearer"}`}
-	case "active-false":
-		return sut.IntrospectOK(false)
-	case "400-revoked":
-		return sut.OktaRevoked()
-	case "400-other":
-		return sut.Answer{Status: 400, Body: `{"error":"invalid_request","error_description":"The request is missing a parameter."}`}
-	case "401":
-		return sut.Answer{Status: 401, Body: `{"error":"invalid_client","error_description":"bad client credentials"}`}
-	case "429":
-		return sut.Answer{Status: 429, Body: `{"error":"too_many_requests"}`}
-	case "500":
-		return sut.Answer{Status: 500, Body: `{"error":"server_error"}`}
-	case "malformed-json":
-		return sut.Answer{Status: 200, Body: `{"active": true`}
-	case "dropped":
-		return sut.Answer{Drop: true}
-	default:
-		return sut.Answer{Status: 200, Body: `{}`}
-	}
-}
-
-func refreshAnswer(cls int, newTok, newRT string, ttl int64) sut.Answer {
-	switch refreshClasses[cls].name {
-	case "200-new-token":
-		return sut.Answer{Status: 200, Body: fmt.Sprintf(`{"access_token":%q,"expires_in":%d,"token_type":"Bearer"}`, newTok, ttl)}
-	case "200-new-token-rotating":
-		return sut.TokenOK(newTok, newRT, ttl)
-	case "400-revoked":
-		return sut.OktaRevoked()
-	case "400-other":
-		return sut.Answer{Status: 400, Body: `{"error":"invalid_request","error_description":"The request is missing a parameter."}`}
-	case "401":
-		return sut.Answer{Status: 401, Body: `{"error":"invalid_client","error_description":"bad client credentials"}`}
-	case "429":
-		return sut.Answer{Status: 429, Body: `{"error":"too_many_requests"}`}
-	case "500":
-		return sut.Answer{Status: 500, Body: `{"error":"server_error"}`}
-	case "malformed-json":
-		return sut.Answer{Status: 200, Body: fmt.Sprintf(`{"access_token":%q,"expires_in":36`, newTok)}
-	case "dropped":
-		return sut.Answer{Drop: true}
-	case "200-without-access-token":
-		return sut.Answer{Status: 200, Body: fmt.Sprintf(`{"token_type":"Bearer","expires_in":%d}`, ttl)}
-	default:
-		return sut.Answer{Status: 200, Body: fmt.Sprintf(`{"access_token":"","token_type":"Bearer","expires_in":%d}`, ttl)}
-	}
-}
-
 type signInCase struct {
 	Index        int    `json:"index"`
+	Provider     string `json:"provider"`
 	Stack        int    `json:"authenticator"`
 	Rule         string `json:"rule_kind"`
 	RuleList     string `json:"rule"`
@@ -102,7 +32,7 @@ type signInCase struct {
 	LifetimePast bool   `json:"lifetime_past"`
 	RefreshDue   bool   `json:"refresh_due"`
 	HasRT        bool   `json:"refresh_token_present"`
-	Introspect   string `json:"introspect_answer"`
+	Introspect   string `json:"validate_answer"`
 	Refresh      string `json:"refresh_answer"`
 	EmailClass   string `json:"email_class"`
 	TokenShape   string `json:"token_shape"`
@@ -117,8 +47,8 @@ type signInCase struct {
 }
 
 func runSignIn(rep *vh.Report, env vh.Env, stacks []*stack, other *sut.AuthStack, only int) {
-	n := env.Pick(2000, 48000)
-	const cells = 10 * 4 * 2 * 4 * 20 * 18 * 18
+	n := env.Pick(2400, 48000)
+	const cells = 10 * 4 * 2 * 4 * 22 * 22 * 18
 	const stride = 1000003
 	vh.ForEach(n, 0, only, func(i int) {
 		r := vh.CaseRNG(env.Seed, streamSignIn, i)
@@ -130,8 +60,8 @@ func runSignIn(rep *vh.Report, env vh.Env, stacks []*stack, other *sut.AuthStack
 		}
 		dim := func(n int) int { v := cell % n; cell /= n; return v }
 		emailDim := dim(18)
-		refrDim := dim(18)
-		introDim := dim(20)
+		refrDim := dim(22)
+		introDim := dim(22)
 		hasRT := dim(4) != 0
 		due := dim(2) == 1
 		lifePast := dim(4) == 0
@@ -144,13 +74,23 @@ func runSignIn(rep *vh.Report, env vh.Env, stacks []*stack, other *sut.AuthStack
 			emailCls = 2 + (emailDim-9)%7
 		}
 		intro := introDim % 2
-		if introDim >= 10 {
-			intro = 2 + (introDim-10)%9
+		if introDim >= 11 {
+			intro = 2 + (introDim - 11) // 11 non-confirming classes
 		}
 		refr := refrDim % 2
-		if refrDim >= 9 {
-			refr = 2 + (refrDim - 9)
+		if refrDim >= 11 {
+			refr = 2 + (refrDim - 11)
 		}
+		if st.prov != "okta" {
+			// the Google / Cognito authenticators get fewer cases: spend them where the provider is asked
+			if r.Intn(10) < 7 {
+				cookie = ckGenuine
+			}
+			if lifePast && r.Intn(10) < 7 {
+				lifePast = false
+			}
+		}
+		valEP := st.valEndpoint()
 
 		uniq := fmt.Sprintf("a%d", i)
 		email := st.email(r, emailCls, uniq)
@@ -223,10 +163,10 @@ func runSignIn(rep *vh.Report, env vh.Env, stacks []*stack, other *sut.AuthStack
 		}
 
 		// script the IdP: every endpoint this session could touch gets this case's answer
-		as.IdP.Set("introspect", tok, introspectAnswer(intro))
-		as.IdP.Set("introspect", newTok, introspectAnswer(intro))
+		as.IdP.Set(valEP, tok, validateAnswer(st.prov, intro, email))
+		as.IdP.Set(valEP, newTok, validateAnswer(st.prov, intro, email))
 		if hasRT {
-			as.IdP.Set("refresh", rt, refreshAnswer(refr, newTok, newRT, ttl))
+			as.IdP.Set("refresh", rt, refreshAnswer(st.prov, refr, newTok, newRT, ttl))
 		}
 
 		redirect := "https://app" + word(r, 3) + ".sso.test/oauth2/callback"
@@ -241,20 +181,20 @@ func runSignIn(rep *vh.Report, env vh.Env, stacks []*stack, other *sut.AuthStack
 		rs := as.Client.Do(sut.Req{Host: as.Host, Target: as.Path("sign_in") + "?" + q.Encode(), Cookies: cookies})
 		rep.Eval()
 
-		introCalls := as.IdP.Calls("introspect", tok)
-		introNewCalls := as.IdP.Calls("introspect", newTok)
+		introCalls := as.IdP.Calls(valEP, tok)
+		introNewCalls := as.IdP.Calls(valEP, newTok)
 		var refrCalls []sut.IdPCall
-		as.IdP.Unset("introspect", tok)
-		as.IdP.Unset("introspect", newTok)
+		as.IdP.Unset(valEP, tok)
+		as.IdP.Unset(valEP, newTok)
 		if hasRT {
 			refrCalls = as.IdP.Calls("refresh", rt)
 			as.IdP.Unset("refresh", rt)
 		}
 
-		kc := signInCase{Index: i, Stack: st.idx, Rule: st.kind, RuleList: strings.Join(append(append([]string{}, st.rules.Domains...), st.rules.Addresses...), ","),
+		kc := signInCase{Index: i, Provider: st.prov, Stack: st.idx, Rule: st.kind, RuleList: strings.Join(append(append([]string{}, st.rules.Domains...), st.rules.Addresses...), ","),
 			TokenShape: shape, Stamps: stampNames[vstamp] + "/" + stampNames[gstamp], Cookie: cookieNames[cookie], LifetimePast: lifePast, RefreshDue: due, HasRT: hasRT,
-			Introspect: introspectClasses[intro].name, Refresh: refreshClasses[refr].name, EmailClass: emailClassNames[emailCls], Email: email, EmailOK: emailOK,
-			Status: rs.Status, IdPCalls: fmt.Sprintf("introspect(old)=%d refresh=%d introspect(new)=%d", len(introCalls), len(refrCalls), len(introNewCalls))}
+			Introspect: validateClasses[intro].name, Refresh: refreshClasses[refr].name, EmailClass: emailClassNames[emailCls], Email: email, EmailOK: emailOK,
+			Status: rs.Status, IdPCalls: fmt.Sprintf("validate(old)=%d refresh=%d validate(new)=%d", len(introCalls), len(refrCalls), len(introNewCalls))}
 		if rs.Err != nil {
 			rep.Count("client_errors", 1)
 			rep.Inconclusive("client transport error on /sign_in (nothing observed for that case)")
@@ -267,9 +207,11 @@ func runSignIn(rep *vh.Report, env vh.Env, stacks []*stack, other *sut.AuthStack
 		path := "validate"
 		if due {
 			path = "refresh"
-			confirmed = hasRT && refreshClasses[refr].confirms
+			confirmed = hasRT && refreshClasses[refr].good
 		} else {
-			confirmed = introspectClasses[intro].confirms
+			var unsettled bool
+			confirmed, unsettled = validateVerdict(st.prov, intro)
+			dontCare = dontCare || (unsettled && genuine && !lifePast)
 		}
 		allowed := genuine && !lifePast && confirmed && emailOK
 		kc.Allowed = allowed
@@ -296,17 +238,17 @@ func runSignIn(rep *vh.Report, env vh.Env, stacks []*stack, other *sut.AuthStack
 			}
 		}
 		sig := "failing=" + strings.Join(failing, "+")
-		detail := fmt.Sprintf("cookie=%s lifetimePast=%v refreshDue=%v refreshToken=%v introspect=%s refresh=%s email=%q(%s) rule=%s[%s]",
+		detail := fmt.Sprintf("cookie=%s lifetimePast=%v refreshDue=%v refreshToken=%v validate=%s refresh=%s email=%q(%s) rule=%s[%s]",
 			kc.Cookie, lifePast, due, hasRT, kc.Introspect, kc.Refresh, email, kc.EmailClass, st.kind, kc.RuleList)
 
-		desc := "A|" + st.kind + "|" + cookieNames[cookie]
+		desc := "A|" + st.prov + "|" + st.kind + "|" + cookieNames[cookie]
 		if genuine {
 			desc += fmtBool(lifePast, "|life-past", "|life-ok")
 			if !lifePast {
 				if due {
 					desc += "|due|" + fmtBool(hasRT, "rt|"+refreshClasses[refr].name, "no-rt")
 				} else {
-					desc += "|fresh|" + introspectClasses[intro].name
+					desc += "|fresh|" + validateClasses[intro].name
 				}
 				desc += "|" + emailClassNames[emailCls]
 			}
@@ -343,19 +285,19 @@ func runSignIn(rep *vh.Report, env vh.Env, stacks []*stack, other *sut.AuthStack
 			ns := as.OpenCookie(v)
 			switch {
 			case !genuine:
-				rep.Violate(streamSignIn, i, "sign_in: session-cookie-set-without-authentic-cookie",
+				st.violate(rep, streamSignIn, i, "sign_in: session-cookie-set-without-authentic-cookie",
 					"the response sets a non-empty authenticator session cookie although no authentic one was presented; "+detail, kc)
 			case ns == nil:
-				rep.Violate(streamSignIn, i, "sign_in: reissued-cookie-does-not-open",
+				st.violate(rep, streamSignIn, i, "sign_in: reissued-cookie-does-not-open",
 					"the re-issued authenticator cookie does not open under the cookie key; "+detail, kc)
 			default:
 				rep.Count("signin_cookie_reissued", 1)
 				if ns.LifetimeDeadline.After(sess.LifetimeDeadline) {
-					rep.Violate(streamSignIn, i, "sign_in: reissued-cookie-lifetime-later path="+path,
+					st.violate(rep, streamSignIn, i, "sign_in: reissued-cookie-lifetime-later path="+path,
 						fmt.Sprintf("re-issued cookie's LifetimeDeadline %s is later than the presented one %s; %s", ns.LifetimeDeadline.UTC(), sess.LifetimeDeadline.UTC(), detail), kc)
 				}
 				if ns.Email != email {
-					rep.Violate(streamSignIn, i, "sign_in: reissued-cookie-email-changed", "re-issued cookie carries another e-mail; "+detail, kc)
+					st.violate(rep, streamSignIn, i, "sign_in: reissued-cookie-email-changed", "re-issued cookie carries another e-mail; "+detail, kc)
 				}
 			}
 		} else if set && cleared {
@@ -363,29 +305,37 @@ func runSignIn(rep *vh.Report, env vh.Env, stacks []*stack, other *sut.AuthStack
 		}
 		if genuine && lifePast {
 			if _, set, cleared := rs.Cookie(as.CookieName); !(set && cleared) {
-				rep.Violate(streamSignIn, i, "lifetime: expired-cookie-not-cleared site=sign_in", "a lifetime-expired authenticator cookie was not cleared; "+detail, kc)
+				st.violate(rep, streamSignIn, i, "lifetime: expired-cookie-not-cleared site=sign_in", "a lifetime-expired authenticator cookie was not cleared; "+detail, kc)
 			}
 		}
 
 		if !issued {
 			// no code may appear anywhere else
 			if carriesCode(as, loc, body) {
-				rep.Violate(streamSignIn, i, "sign_in: code-outside-302-redirect "+sig,
+				st.violate(rep, streamSignIn, i, "sign_in: code-outside-302-redirect "+sig,
 					fmt.Sprintf("status %d response carries a value that opens as an authorization code; %s", rs.Status, detail), kc)
 				return
 			}
 			if mentionsCodeParam(loc, body) {
-				rep.Violate(streamSignIn, i, "sign_in: code-parameter-in-refusal "+sig,
+				st.violate(rep, streamSignIn, i, "sign_in: code-parameter-in-refusal "+sig,
 					fmt.Sprintf("status %d response mentions a code= parameter; %s", rs.Status, detail), kc)
 				return
 			}
 			if !(rs.Status == 200 || rs.Status >= 400) {
-				rep.Violate(streamSignIn, i, fmt.Sprintf("sign_in: refusal-neither-page-nor-error status=%d", rs.Status),
+				st.violate(rep, streamSignIn, i, fmt.Sprintf("sign_in: refusal-neither-page-nor-error status=%d", rs.Status),
 					"a refusal must be the sign-in page or an error; "+detail+" location="+loc, kc)
 				return
 			}
 			if dontCare {
-				rep.Count("dontcare_email_rule_unsettled", 1)
+				rep.Count("dontcare_unsettled_refused", 1)
+			}
+			if genuine && !lifePast {
+				if !due && len(introCalls) > 0 {
+					rep.Count("signin_"+st.prov+"_refused_validate_"+validateClasses[intro].name, 1)
+				}
+				if due && len(refrCalls) > 0 {
+					rep.Count("signin_"+st.prov+"_refused_refresh_"+refreshClasses[refr].name, 1)
+				}
 			}
 			if allowed {
 				rep.Count("signin_refused_although_allowed", 1) // one-directional property: not judged
@@ -403,14 +353,15 @@ func runSignIn(rep *vh.Report, env vh.Env, stacks []*stack, other *sut.AuthStack
 
 		// ---- a code was issued
 		if dontCare {
-			rep.Count("dontcare_email_rule_unsettled", 1)
+			rep.Count("dontcare_unsettled_code_issued", 1)
 			return
 		}
 		if !allowed {
-			rep.Violate(streamSignIn, i, "sign_in: code-issued "+sig, "authorization code issued although the ground truth forbids it; "+detail, kc)
+			st.violate(rep, streamSignIn, i, "sign_in: code-issued "+sig, "authorization code issued although the ground truth forbids it; "+detail, kc)
 			return
 		}
 		rep.Count("signin_code_via_"+path, 1)
+		rep.Count("signin_"+st.prov+"_code_via_"+path, 1)
 		// the IdP log must show the confirming call of this very request
 		okCall := false
 		wantTok := tok
@@ -425,30 +376,30 @@ func runSignIn(rep *vh.Report, env vh.Env, stacks []*stack, other *sut.AuthStack
 			}
 		}
 		if !okCall {
-			rep.Violate(streamSignIn, i, "sign_in: code-issued-without-idp-confirmation path="+path,
-				"code issued but the fake IdP's log shows no confirming "+fmtBool(due, "refresh", "introspect")+" call for this session during the request; "+detail, kc)
+			st.violate(rep, streamSignIn, i, "sign_in: code-issued-without-idp-confirmation path="+path,
+				"code issued but the fake IdP's log shows no confirming "+fmtBool(due, "refresh", valEP)+" call for this session during the request; "+detail, kc)
 		}
 		cs := as.OpenCode(code)
 		switch {
 		case cs == nil:
-			rep.Violate(streamSignIn, i, "sign_in: code-does-not-open", "the issued code does not open under the code key; "+detail, kc)
+			st.violate(rep, streamSignIn, i, "sign_in: code-does-not-open", "the issued code does not open under the code key; "+detail, kc)
 		case cs.Email != email:
-			rep.Violate(streamSignIn, i, "sign_in: code-for-other-email", fmt.Sprintf("code carries e-mail %q, cookie had %q; %s", cs.Email, email, detail), kc)
+			st.violate(rep, streamSignIn, i, "sign_in: code-for-other-email", fmt.Sprintf("code carries e-mail %q, cookie had %q; %s", cs.Email, email, detail), kc)
 		case cs.AccessToken != wantTok:
-			rep.Violate(streamSignIn, i, "sign_in: code-carries-unconfirmed-token path="+path,
+			st.violate(rep, streamSignIn, i, "sign_in: code-carries-unconfirmed-token path="+path,
 				fmt.Sprintf("code carries access token %q, the IdP confirmed %q; %s", cs.AccessToken, wantTok, detail), kc)
 		case cs.LifetimeDeadline.After(sess.LifetimeDeadline):
-			rep.Violate(streamSignIn, i, "sign_in: code-lifetime-later path="+path, "the code's LifetimeDeadline is later than the presented cookie's; "+detail, kc)
+			st.violate(rep, streamSignIn, i, "sign_in: code-lifetime-later path="+path, "the code's LifetimeDeadline is later than the presented cookie's; "+detail, kc)
 		}
 		_, ru := queryCode(redirect)
 		if lu == nil || ru == nil || lu.Host != ru.Host || lu.Path != ru.Path {
-			rep.Violate(streamSignIn, i, "sign_in: code-sent-elsewhere", "Location's host/path differ from redirect_uri's: "+loc+" vs "+redirect, kc)
+			st.violate(rep, streamSignIn, i, "sign_in: code-sent-elsewhere", "Location's host/path differ from redirect_uri's: "+loc+" vs "+redirect, kc)
 		} else {
 			if lu.Query().Get("state") != state {
-				rep.Violate(streamSignIn, i, "sign_in: state-not-echoed", fmt.Sprintf("state %q came back as %q", state, lu.Query().Get("state")), kc)
+				st.violate(rep, streamSignIn, i, "sign_in: state-not-echoed", fmt.Sprintf("state %q came back as %q", state, lu.Query().Get("state")), kc)
 			}
 			if ru.Query().Get("keep") != lu.Query().Get("keep") {
-				rep.Violate(streamSignIn, i, "sign_in: redirect-query-lost", "redirect_uri's own query parameter changed: "+loc, kc)
+				st.violate(rep, streamSignIn, i, "sign_in: redirect-query-lost", "redirect_uri's own query parameter changed: "+loc, kc)
 			}
 		}
 	})
